@@ -18,13 +18,13 @@ FAMILIES = {
     'int64': 'int', 'int8': 'int', 'uint8': 'int', 'uint64': 'int', 'Int64': 'int', 'UInt8': 'int',
     'float64': 'real', 'float32': 'real', 'Float64': 'real',
     'bool': 'bool', 'boolean': 'bool', 'object-bool': 'bool',
-    'object-str': 'string', 'string': 'string', 'category': 'string',
+    'object-str': 'string', 'string': 'string', 'category': 'string', 'category-unused': 'string',
     'datetime64[ns]': 'date', 'datetime64[us]': 'date', 'datetime64[ms]': 'date', 'datetime64[s]': 'date',
     'datetime-tz': 'date', 'object-date': 'date',
     'str': 'other',
 }
 NULLABLE = {'Int64', 'UInt8', 'float64', 'float32', 'Float64', 'boolean', 'object-bool', 'object-str', 'string',
-            'category', 'datetime64[ns]', 'datetime64[us]', 'datetime64[ms]', 'datetime64[s]', 'datetime-tz',
+            'category', 'category-unused', 'datetime64[ns]', 'datetime64[us]', 'datetime64[ms]', 'datetime64[s]', 'datetime-tz',
             'object-date', 'str'}
 STR_POOL = ['a', 'b', 'abc', 'ab', 'AB', '', ' ', 'x y', 'été', '日本', 'a1', '12', 'id-7', 'id-12', 'Zed', 'zed',
             "it's", 'q"t', 'back\\slash', 'line\nbreak', 'tab\t', 'é', 'ß', '٣', '²', 'a.b', '^-', 'foo', 'bar']
@@ -39,6 +39,13 @@ def gen_cells(rng, fam, n):
     nullp = rng.choice([0, 0, 0, 0.15, 0.4, 1.0]) if fam in NULLABLE else 0
     cells = []
     small = rng.random() < 0.5   # few distinct values -> duplicates
+    if FAMILIES[fam] == 'real' and fam != 'float32' and rng.random() < 0.2 and n > 0:
+        # values around the edges of a fuzzy band b*(1 +- eps) for dyadic b and eps (exact in floating point)
+        b = rng.choice([-128.0, -64.0, -8.0, 8.0, 64.0, 128.0])
+        eps = rng.choice([0.5, 0.25, 0.125])
+        pts = [b, b * (1 + eps), b * (1 - eps), b * (1 + eps) + 0.5, b * (1 + eps) - 0.5, b * (1 - eps) + 0.5,
+               b * (1 - eps) - 0.5, b + 0.5, b - 0.5]
+        return [None if rng.random() < nullp else rng.choice(pts) for _ in range(n)]
     if FAMILIES[fam] == 'real' and fam != 'float32' and rng.random() < 0.25 and n > 0:
         # whole-number reals, with at most one value that is nearly (but not) whole: the sloppy int / bool rule
         out = [None if rng.random() < nullp else float(rng.choice([0, 1, 2, 7, 100000, -3, 10 ** 10])) for _ in range(n)]
@@ -116,6 +123,10 @@ def to_series(col):
         return pd.Series(cells, dtype=object)
     if fam == 'category':
         return pd.Series(pd.Categorical([c for c in cells]))
+    if fam == 'category-unused':
+        # a categorical that declares categories no row uses (e.g. after filtering rows)
+        seen = sorted({c for c in cells if c is not None})
+        return pd.Series(pd.Categorical([c for c in cells], categories=seen + ['unused-1', 'unused-2']))
     if fam == 'str':
         return pd.Series([np.nan if c is None else c for c in cells], dtype='str')
     if fam.startswith('datetime64'):
